@@ -128,6 +128,12 @@ def async_expected(src):
     return out + ["C"], True
 
 
+def hist_len(rng, lo, hi, p_wide=0.12):
+    """history length: mostly short; a share of long ones (30..60 events: counters, handle lists, buffers and other
+    size thresholds of an implementation lie beyond the short ranges)"""
+    return rng.randint(30, 60) if rng.random() < p_wide else rng.randint(lo, hi)
+
+
 def events(rng, n, hot=True, mode="mixed", unsub_p=0.0, term_p=0.15):
     """mode: 'fifo' (every step followed by run), 'mixed' (fire/poll/run interleaved)."""
     evs = [["sub"]]
